@@ -100,3 +100,17 @@ META["C13"]["text"] += " Filters that match the empty content type (.*, ^, json|
 META["C14"]["text"] += " TestC14Server uses mixed-case host names."
 META["C16"]["text"] += " 20% of the scenarios end with a configuration without any server (listeners must go away, acknowledged or not)."
 META["C18"]["text"] += " Keys include 1.6 KB query strings."
+# round 7
+META["C01"]["text"] += " A third yield point (get.enter, between the lookup of the key's entry and the Get on it) lets requests hold an entry across expiry, purge and eviction."
+META["C01"]["note"] += "; hook 13c1fe9 adds the yield point get.enter"
+META["C02"]["text"] += " Proxy timeouts include sub-second values; every upstream exchange of a location with a proxy timeout must carry that deadline."
+META["C03"]["text"] += " Age values beyond the representable range count as a very large age."
+META["C07"]["text"] += " With two caches the second one may leave hitForPass unset (default 300 s) next to an explicit value on the first."
+META["C10"]["text"] += " TestC10SlowStore: store calls that take 20-80 ms while staggered bursts ask for a record that left memory."
+META["C12"]["text"] += " Inputs include data that is itself a compressed stream of one of the five formats (or begins with its magic number)."
+META["C13"]["text"] += " Half of the per-request compressions in the table use a profile with the fastest levels; the stored variant must still be best-compression output."
+META["C14"]["text"] += " TestC14Config routes generated location configuration entries (any host case, prefix /) through location.Reset and the package registry."
+META["C15"]["text"] += " Paths include escapes that a re-encoding would change (%2F, %3B, lower-case hex), with and without a matching rewrite rule."
+META["C18"]["text"] += " A third of the admin cases starts after the caches have been dropped and re-created under the same names by two reloads."
+META["C19"]["text"] += " TestC19Alarm runs the real binary with --alarm pointing at receivers that hang, are slow, answer or refuse, under pike's own periodic checker."
+META["C20"]["text"] += " Some keys (one of the hot ones) become cacheable only after two answers, while conditional requests keep arriving."
